@@ -138,6 +138,15 @@ def check_pair(ctx, model, nptdms, tmp, data, index, stats, label, marker, cut=F
                     vio.append(Violation("the index file alone gives different objects / properties / types / lengths (%s)" % label,
                                          dict(kind="index-only", data=data.hex(), index=index.hex(), got=mo, expected=exp)))
                 for c in cl.channels_of(f):
+                    if c.data_type is not None:
+                        # requests for no values at all are data reads too: refused like the others
+                        for nm, fn in (("read_data(length=0)", lambda: c.read_data(length=0)), ("read_data(offset=len)", lambda: c.read_data(offset=len(c))),
+                                       ("read_data(scaled=False) of an empty channel", (lambda: c.read_data(scaled=False)) if len(c) == 0 else None)):
+                            if fn is None:
+                                continue
+                            rr = cl.call(fn)
+                            if rr[0] == "ok":
+                                vio.append(Violation("index-only file: %s on %r returned %r instead of raising" % (nm, c.path, rr[1]), dict(kind="index-only", data=data.hex(), index=index.hex(), op=nm)))
                     if len(c) == 0:
                         continue
                     for nm, fn in (("read_data()", lambda: c.read_data()), ("[:]", lambda: c[:]), ("[0]", lambda: c[0]), ("data_chunks", lambda: list(c.data_chunks()))):
@@ -265,7 +274,7 @@ def run(ctx):
                     violations += v
             if len(samples) < 2 and segs is not None and len(data) < 300:
                 samples.append(dict(encoding=gen_files.to_line(segs)))
-            if len(violations) >= 5 or len(disagreements) >= 20:
+            if len(violations) >= 5 or len(disagreements) >= ctx.dis_limit:
                 break
             if ctx.tier == "quick" and ctx.elapsed() > 45:
                 break
